@@ -30,6 +30,11 @@ func NewContainer() *Container {
 func (m *Container) AddAccessory(a *Accessory) error {
 	a.UpdateIDs()
 	if a.ID == 0 {
+		// The next id which no accessory of the container has; ids may also be given explicitly
+		for m.as[m.idCount] != nil {
+			m.idCount++
+		}
+
 		a.ID = m.idCount
 		m.idCount++
 	}
